@@ -55,6 +55,15 @@ Proof. apply pn53x_error_map_documented. Qed.
 Lemma pn53x_ioerror_total d n : documented (pn53x_ioerror_map d n) = true.
 Proof. unfold pn53x_ioerror_map. destruct (n =? ETIMEDOUT); reflexivity. Qed.
 
+Lemma pn53x_readreg_total d ws n payload : allowed (pn53x_readreg_outcome d ws n payload) = true.
+Proof. unfold pn53x_readreg_outcome. destruct (readreg_result ws n payload); [reflexivity|].
+  cbn. apply pn53x_error_map_documented. Qed.
+(* a ReadRegister answer is accepted only with at least one value per register *)
+Lemma pn53x_readreg_enough d n payload :
+  pn53x_readreg_outcome d false n payload = OData <-> n <= Z.of_nat (length payload).
+Proof. unfold pn53x_readreg_outcome, readreg_result.
+  destruct (Z.ltb_spec (Z.of_nat (length payload)) n); split; intro H0; try reflexivity; try discriminate; lia. Qed.
+
 (* classification demanded by the property text *)
 Lemma pn53x_initiator_classify code rest : 0 <= code < 256 ->
   pn53x_status_outcome Initiator InCommunicateThru (code :: rest) =
@@ -129,6 +138,22 @@ Lemma rcs380_bytes_word d b0 b1 b2 b3 :
   0 <= b0 < 256 -> 0 <= b1 < 256 -> 0 <= b2 < 256 -> 0 <= b3 < 256 ->
   rcs380_bytes_outcome d b0 b1 b2 b3 = rcs380_status_outcome d (le32 b0 b1 b2 b3).
 Proof. intros. unfold rcs380_bytes_outcome, rcs380_status_outcome. rewrite le32_zero by assumption. reflexivity. Qed.
+
+Lemma rcs380_bytes_total d b0 b1 b2 b3 : allowed (rcs380_bytes_outcome d b0 b1 b2 b3) = true.
+Proof. unfold rcs380_bytes_outcome. destruct ((b0 =? 0) && (b1 =? 0) && (b2 =? 0) && (b3 =? 0)); [reflexivity|].
+  cbn. apply rcs380_comm_map_documented. Qed.
+
+(* whatever payload follows the InCommRF / TgCommRF response code, of any length *)
+Lemma rcs380_payload_total d payload : allowed (rcs380_payload_outcome d payload) = true.
+Proof.
+  unfold rcs380_payload_outcome. destruct payload as [|a0 r0]; [reflexivity|].
+  destruct (Z.of_nat (length (a0 :: r0)) <? _) eqn:E; [cbn; apply rcs380_comm_map_documented|].
+  destruct d.
+  - destruct r0 as [|a1 [|a2 [|a3 r]]]; try (vm_compute in E; discriminate).
+    cbn [skipn]. apply rcs380_bytes_total.
+  - destruct r0 as [|a1 [|a2 [|a3 [|a4 [|a5 [|a6 r]]]]]]; try (vm_compute in E; discriminate).
+    cbn [skipn]. apply rcs380_bytes_total.
+Qed.
 
 Lemma rcs380_setup_total st : allowed (rcs380_setup_outcome st) = true.
 Proof. unfold rcs380_setup_outcome. destruct (st =? 0); reflexivity. Qed.
